@@ -27,7 +27,8 @@ HEADER = ('From Coq Require Import List Bool ZArith.\nRequire Import GT.PyBase G
           'Import ListNotations.\nOpen Scope Z_scope.\n')
 MODEL_HEADER = 'Require Import GT.SearchModel.\n'
 OPS = {'lt': 'OpLt', 'le': 'OpLe', 'min': 'OpMin', 'sort': 'OpSort', 'distinct': 'OpDistinct', 'search': 'OpSearch'}
-GUARD_S = 10.0      # wall-clock guard per case (non-termination)
+GUARD_S = 3.0       # wall-clock guard per case (non-termination); a case normally takes well under 10 ms
+MAX_GUARD_HITS = 4  # per worker process: afterwards the remaining cases of that worker are not run (reported as skipped)
 
 
 # ------------------------------------------------------------------ implementation side (worker)
@@ -98,7 +99,10 @@ def impl_run(item):
     import signal
     import graphtage.bounds as gb
     import graphtage.search as gs
-    sink = _install()['sink']
+    inst = _install()
+    sink = inst['sink']
+    if inst.get('guard_hits', 0) >= MAX_GUARD_HITS:
+        return {'events': [], 'ties': [], 'hops': [], 'hints': [], 'obs': ['skipped']}
     events = []
 
     class Item:
@@ -169,12 +173,16 @@ def impl_run(item):
             raise ValueError(op)
     except _Timeout:
         obs = ['fail', 'no answer within the wall-clock guard']
+        inst['guard_hits'] = inst.get('guard_hits', 0) + 1
     except Exception as e:  # noqa
         obs = ['fail', f'{type(e).__name__}: {e}'[:200]]
     finally:
         signal.setitimer(signal.ITIMER_REAL, 0)
         signal.signal(signal.SIGALRM, old)
         sink['ties'] = sink['hops'] = sink['hints'] = None
+    if obs[0] == 'fail':
+        for log_ in (events, ties, hops, hints):      # a spinning loop logs millions of entries
+            del log_[200:]
     return {'events': events, 'ties': ties, 'hops': hops, 'hints': hints, 'obs': obs}
 
 
@@ -365,15 +373,19 @@ def gen_cases(tier, rng):
             cases.append({'op': op, 'items': its, 'src': 'exhaustive'})
     if not quick:
         for op in main_ops:
-            for a in chains:
-                for b in chains:
-                    for c in chains:
-                        cases.append({'op': op, 'items': [a, b, c], 'src': 'exhaustive'})
+            if op in ('search', 'distinct'):      # the operations whose pruning / tie rules depend on the third item
+                for a in chains:
+                    for b in chains:
+                        for c in chains:
+                            cases.append({'op': op, 'items': [a, b, c], 'src': 'exhaustive'})
+            else:
+                for _ in range(20000):
+                    cases.append({'op': op, 'items': [rng.choice(chains) for _ in range(3)], 'src': 'exhaustive-sample'})
     else:
         for op in main_ops:
             for _ in range(600):
                 cases.append({'op': op, 'items': [rng.choice(chains) for _ in range(3)], 'src': 'exhaustive-sample'})
-    n_rand = 500 if quick else 6000
+    n_rand = 500 if quick else 3000
     for op in main_ops:
         for k in range(n_rand):
             n = rng.choice([1, 2, 2, 3, 3, 4, 5, 6, 8]) if k % 10 else rng.randint(9, 14)
@@ -409,10 +421,13 @@ def run_cases(run, wd, cases, st, tag):
     t0 = time.time()
     res = common.run_impl('pC17', 'impl_run', cases, timeout_item=60)
     t1 = time.time()
-    keep, terms, internal = [], [], []
+    keep, terms, internal, skipped = [], [], [], 0
     for c, r in zip(cases, res):
         if not r or 'ok' not in r:
             internal.append((c, r))
+            continue
+        if r['ok']['obs'][0] == 'skipped':      # not run: the worker had hit the wall-clock guard repeatedly
+            skipped += 1
             continue
         keep.append((c, r['ok']))
         terms.append(case_term(c, r['ok']))
@@ -425,7 +440,8 @@ def run_cases(run, wd, cases, st, tag):
     chunk = max(20, min(400, -(-len(terms) // (2 * common.NPROC))))
     bad, err = common.coq_eval_cases(wd, 'cases_' + tag, header, terms, evals, chunk=chunk)
     common.log(f'C17 {tag}: {len(cases)} cases, implementation {t1 - t0:.1f}s, Coq evaluation {time.time() - t1:.1f}s')
-    out = {'keep': keep, 'internal': internal, 'err': err, 'bad_holds': [], 'out_domain': [], 'bad_corr': []}
+    out = {'keep': keep, 'internal': internal, 'err': err, 'bad_holds': [], 'out_domain': [], 'bad_corr': [],
+           'skipped': skipped}
     if not err:
         out['bad_holds'], out['out_domain'] = bad[0], bad[1]
         out['bad_corr'] = bad[2] if st['models_ok'] else []
@@ -521,12 +537,14 @@ def check(tier, seed):
             by_src[c.get('src', '?')] = by_src.get(c.get('src', '?'), 0) + 1
             n_events += len(r['events'])
         run.cov['traces_validated_against_impl'] = len(out['keep']) - len(out['bad_corr'])
+        run.cov['cases_not_run_after_repeated_guard_hits'] = out['skipped']
         run.cov['cases_by_operation'] = by_op
         run.cov['cases_by_source'] = by_src
         run.cov['tighten_calls_compared'] = n_events
         run.cov['max_items'] = max((len(c['items']) for c, _ in out['keep']), default=0)
         run.cov['max_schedule_length'] = max((len(s) for c, _ in out['keep'] for s in c['items']), default=0)
-        run.cov['exhaustive'] = ('all sets of <=3 schedules over the 48 strictly shrinking schedules inside [0,3]'
+        run.cov['exhaustive'] = ('all sets of <=2 schedules over the 48 strictly shrinking schedules inside [0,3] for every operation; '
+                                 'all 3-item sets for search and make_distinct, 20000 sampled 3-item sets for min_bounded and sort'
                                  if tier == 'thorough' else
                                  'search, make_distinct: all sets of <=2 schedules over the 48 strictly shrinking schedules '
                                  'inside [0,3]; other operations: all single schedules and 600 sampled pairs; 600 sampled '
@@ -551,7 +569,7 @@ def replay(path):
     obj = json.load(open(path))
     wd = common.Workdir(PROP + 'r')
     try:
-        st = common.build(MODELS, [])
+        st = common.build(MODELS, MODELS)      # (an empty target list would make everything)
         c = {'op': obj['op'], 'items': obj['items']}
         r = common.run_impl('pC17', 'impl_run', [c], nproc=1)[0]
         print(json.dumps(r, indent=1)[:4000])
